@@ -238,6 +238,10 @@ func (qe *QueryExecutor) loadBlock(ctx context.Context, taskData ResponseTask, l
 		}
 	}
 	data := blockBuffer.Bytes()
+	if data == nil {
+		// a zero-length block is present, not missing: nil data means "missing" downstream
+		data = []byte{}
+	}
 	err = taskData.Traverser.Advance(blockBuffer)
 	if err != nil {
 		log.Errorf("failed to advance traversal, link=%s, nBlocksRead=%d, err=%s", lnk, taskData.Traverser.NBlocksTraversed(), err)
